@@ -12,10 +12,9 @@ structure MP where
   prevDir : Dir
   pinOpen : Bool
   pinClose : Bool
-  dpulses : Nat
   deriving DecidableEq, Repr
 
-def mpOf (s : St) : MP := ⟨s.prevDir, s.pinOpen, s.pinClose, s.dpulses⟩
+def mpOf (s : St) : MP := ⟨s.prevDir, s.pinOpen, s.pinClose⟩
 
 theorem mp_emit (s : St) (b : List Nat) : mpOf (emit s b) = mpOf s := rfl
 theorem mp_emitLn (s : St) (b : List Nat) : mpOf (emitLn s b) = mpOf s := rfl
@@ -110,7 +109,66 @@ theorem mp_serialStep (s : St) (b : Nat) : mpOf (serialStep s b) = mpOf s := by
         · simp only [hb, hf, hg, hn, if_false, Bool.false_eq_true]
           exact mp_bufStore _ _
 
-/-! ### the pins follow `m_previous_direction` as long as no interrupt fires inside `delay()` -/
+/-! ### the pins always are what `process_direction` last wrote for `m_previous_direction` -/
+
+/-- what the encoder ISR can do: position ±1 or unchanged, direction unchanged or STOP -/
+theorem coverIsr_cases (s : St) :
+    ∃ p d, coverIsr s = { s with pos := p, dir := d, isrLast := s.clk } ∧ (d = s.dir ∨ d = .stop) ∧
+      (p = s.pos ∨ p = wrap32 (s.pos + 1) ∨ p = wrap32 (s.pos - 1)) := by
+  unfold coverIsr
+  by_cases hdeb : s.clk - s.isrLast > coverDebounceMs
+  · simp only [hdeb, if_true]
+    unfold stepCover
+    cases hr : s.run with
+    | opn =>
+      simp only []
+      by_cases hc : s.lim = Lim.none ∧ atOpenEnd (wrap32 (s.pos + 1)) s.opn = true
+      · simp only [hc, and_self, if_true]
+        exact ⟨_, _, rfl, Or.inr rfl, Or.inr (Or.inl rfl)⟩
+      · simp only [hc, if_false]
+        exact ⟨_, _, rfl, Or.inl rfl, Or.inr (Or.inl rfl)⟩
+    | cls =>
+      simp only []
+      by_cases hc : s.lim = Lim.none ∧ atCloseEnd (wrap32 (s.pos - 1)) s.close = true
+      · simp only [hc, and_self, if_true]
+        exact ⟨_, _, rfl, Or.inr rfl, Or.inr (Or.inr rfl)⟩
+      · simp only [hc, if_false]
+        exact ⟨_, _, rfl, Or.inl rfl, Or.inr (Or.inr rfl)⟩
+    | stop =>
+      simp only []
+      refine ⟨s.pos, s.dir, ?_, Or.inl rfl, Or.inl rfl⟩
+      simp only [hr]
+  · simp only [hdeb, if_false]
+    exact ⟨s.pos, s.dir, rfl, Or.inl rfl, Or.inl rfl⟩
+
+theorem mp_delayWithPulses (s : St) : mpOf (delayWithPulses s) = mpOf s := by
+  unfold delayWithPulses
+  have h := foldl_inv (fun a => mpOf a = mpOf s) (delayPulse s.clk s.dpulses)
+    (fun a k ha => Eq.trans (Eq.trans (mp_coverIsr _) rfl) ha)
+    (List.range s.dpulses) { s with dpulses := 0 } rfl
+  exact Eq.trans rfl h
+
+/-- interrupts inside the delay leave the direction alone or set it to STOP -/
+theorem delayWithPulses_dir (s : St) : (delayWithPulses s).dir = s.dir ∨ (delayWithPulses s).dir = .stop := by
+  unfold delayWithPulses
+  have h := foldl_inv (fun a : St => a.dir = s.dir ∨ a.dir = .stop) (delayPulse s.clk s.dpulses)
+    (fun a k ha => by
+      obtain ⟨p, d, e, hd, _⟩ := coverIsr_cases { a with clk := s.clk + ((k + 1) * relayDelayMs) / (s.dpulses + 1) }
+      show (coverIsr _).dir = s.dir ∨ (coverIsr _).dir = .stop
+      rw [e]
+      rcases hd with hd | hd
+      · rcases ha with ha | ha
+        · exact Or.inl (hd.trans ha)
+        · exact Or.inr (hd.trans ha)
+      · exact Or.inr hd)
+    (List.range s.dpulses) { s with dpulses := 0 } (Or.inl rfl)
+  exact h
+
+theorem delayWithPulses_zero (s : St) (h : s.dpulses = 0) :
+    delayWithPulses s = { s with dpulses := 0, clk := s.clk + relayDelayMs } := by
+  unfold delayWithPulses
+  rw [h]
+  rfl
 
 /-- the motor pins are what `process_direction` last wrote for `m_previous_direction` -/
 def PinsOK (m : MP) : Prop :=
@@ -119,42 +177,49 @@ def PinsOK (m : MP) : Prop :=
   | .cls => m.pinOpen = true ∧ m.pinClose = false
   | .stop => m.pinOpen = false ∧ m.pinClose = false
 
-def Motor (s : St) : Prop := PinsOK (mpOf s) ∧ s.dpulses = 0
+def Motor (s : St) : Prop := PinsOK (mpOf s)
 
 theorem motor_of_mp {a b : St} (h : mpOf a = mpOf b) (hb : Motor b) : Motor a := by
   unfold Motor at *
   rw [h]
-  exact ⟨hb.1, (congrArg MP.dpulses h).trans hb.2⟩
+  exact hb
 
-theorem delayWithPulses_zero (s : St) (h : s.dpulses = 0) :
-    delayWithPulses s = { s with dpulses := 0, clk := s.clk + relayDelayMs } := by
-  unfold delayWithPulses
-  rw [h]
-  rfl
-
-/-- `process_direction` without an interrupt inside its delay: the direction is not changed, it becomes the previous
-direction, and the pins are written accordingly -/
+/-- `process_direction`, with ANY number of interrupts inside its delay: the pins are written for the direction read
+at the top, that direction becomes the previous direction, and the direction itself is unchanged or (ISR) STOP -/
 theorem processDirection_motor (s : St) (now : Nat) (h : Motor s) :
-    Motor (processDirection s now) ∧ (processDirection s now).dir = s.dir ∧
-    (processDirection s now).prevDir = s.dir := by
-  obtain ⟨hp, hd⟩ := h
+    Motor (processDirection s now) ∧ (processDirection s now).prevDir = s.dir ∧
+    ((processDirection s now).dir = s.dir ∨ (processDirection s now).dir = .stop) ∧
+    (s.dpulses = 0 → (processDirection s now).dir = s.dir) := by
   unfold processDirection
+  simp only [prevDirRereadsVolatile, Bool.false_eq_true, if_false]
   by_cases hc : s.dir = s.prevDir
   · simp only [hc, ne_eq, not_true_eq_false, if_false]
-    exact ⟨⟨hp, hd⟩, trivial, trivial⟩
+    exact ⟨h, trivial, Or.inl trivial, fun _ => trivial⟩
   · simp only [ne_eq, hc, not_false_eq_true, if_true]
     cases hdir : s.dir with
     | opn =>
       simp only []
-      rw [delayWithPulses_zero _ (by exact hd)]
-      exact ⟨⟨⟨rfl, rfl⟩, rfl⟩, rfl, rfl⟩
+      have hm := congrArg MP.pinClose (mp_delayWithPulses { s with dir := .opn, run := .opn, pinClose := true })
+      have hd := delayWithPulses_dir { s with dir := .opn, run := .opn, pinClose := true }
+      refine ⟨⟨hm, rfl⟩, by trivial, ?_, ?_⟩
+      · rcases hd with hd | hd
+        · exact Or.inl hd
+        · exact Or.inr hd
+      · intro h0
+        rw [delayWithPulses_zero _ (by exact h0)]
     | cls =>
       simp only []
-      rw [delayWithPulses_zero _ (by exact hd)]
-      exact ⟨⟨⟨rfl, rfl⟩, rfl⟩, rfl, rfl⟩
+      have hm := congrArg MP.pinOpen (mp_delayWithPulses { s with dir := .cls, run := .cls, pinOpen := true })
+      have hd := delayWithPulses_dir { s with dir := .cls, run := .cls, pinOpen := true }
+      refine ⟨⟨hm, rfl⟩, by trivial, ?_, ?_⟩
+      · rcases hd with hd | hd
+        · exact Or.inl hd
+        · exact Or.inr hd
+      · intro h0
+        rw [delayWithPulses_zero _ (by exact h0)]
     | stop =>
       simp only []
-      exact ⟨⟨⟨rfl, rfl⟩, hd⟩, by trivial, by trivial⟩
+      exact ⟨⟨rfl, rfl⟩, by trivial, Or.inl (by trivial), fun _ => by trivial⟩
 
 theorem actions_motor (s : St) (btn : Option Btn) (h : Motor s) : Motor (actions s btn) := by
   unfold actions
@@ -164,44 +229,29 @@ theorem actions_motor (s : St) (btn : Option Btn) (h : Motor s) : Motor (actions
   | none => exact h
   | some k => exact motor_of_mp (mp_button s k) h
 
-/-- no `D n` event with `n > 0`: no encoder interrupt fires inside `delay()` -/
-def noDelayPulses : List Ev → Bool
-  | [] => true
-  | .delayPulses (_ + 1) :: _ => false
-  | _ :: r => noDelayPulses r
-
-theorem step_motor (s : St) (e : Ev) (h : Motor s) (he : noDelayPulses [e] = true) : Motor (step s e) := by
+theorem step_motor (s : St) (e : Ev) (h : Motor s) : Motor (step s e) := by
   cases e with
   | byte b => exact actions_motor _ _ (motor_of_mp (mp_serialStep s b) h)
   | tick ms => exact actions_motor _ _ (motor_of_mp (b := s) rfl h)
   | adv ms => exact motor_of_mp (b := s) rfl h
   | pulse => exact motor_of_mp (mp_coverIsr s) h
   | wpulse => exact motor_of_mp (mp_waterIsr s) h
-  | delayPulses n =>
-    cases n with
-    | zero => exact ⟨h.1, rfl⟩
-    | succ k => simp [noDelayPulses] at he
+  | delayPulses n => exact motor_of_mp (b := s) rfl h
   | btn k => exact actions_motor _ _ h
   | query => exact h
 
-theorem noDelayPulses_cons (e : Ev) (es : List Ev) (h : noDelayPulses (e :: es) = true) :
-    noDelayPulses [e] = true ∧ noDelayPulses es = true := by
-  cases e with
-  | delayPulses n =>
-    cases n with
-    | zero => exact ⟨rfl, h⟩
-    | succ k => simp [noDelayPulses] at h
-  | _ => exact ⟨rfl, h⟩
-
-theorem run_motor (evs : List Ev) : ∀ s : St, Motor s → noDelayPulses evs = true → Motor (run s evs) := by
+theorem run_motor (evs : List Ev) : ∀ s : St, Motor s → Motor (run s evs) := by
   induction evs with
-  | nil => intro s h _; exact h
-  | cons e es ih =>
-    intro s h hn
-    obtain ⟨h1, h2⟩ := noDelayPulses_cons e es hn
-    exact ih (step s e) (step_motor s e h h1) h2
+  | nil => intro s h; exact h
+  | cons e es ih => intro s h; exact ih (step s e) (step_motor s e h)
 
-theorem motor_init (p c o : Int) : Motor (init p c o) := ⟨⟨rfl, rfl⟩, rfl⟩
+theorem motor_init (p c o : Int) : Motor (init p c o) := ⟨rfl, rfl⟩
+
+/-- pins LOW iff the previous direction is STOP -/
+theorem motor_low_iff (s : St) (h : Motor s) : (s.pinOpen = false ∧ s.pinClose = false) ↔ s.prevDir = .stop := by
+  unfold Motor PinsOK at h
+  simp only [mpOf] at h
+  cases hd : s.prevDir <;> rw [hd] at h <;> simp_all
 
 /-! ### stall window -/
 
@@ -267,36 +317,6 @@ theorem actions_none_dir_stop (s : St) (h : s.dir = .stop) : (actions s none).di
   have h2 : (ensureConsistency (processDirection s s.clk) s.clk).dir = .stop := by
     unfold ensureConsistency; rw [if_neg (by simp [h1])]; exact h1
   exact (processStop_same _ _).1.trans h2
-
-/-- what the encoder ISR can do: position ±1 or unchanged, direction unchanged or STOP -/
-theorem coverIsr_cases (s : St) :
-    ∃ p d, coverIsr s = { s with pos := p, dir := d, isrLast := s.clk } ∧ (d = s.dir ∨ d = .stop) ∧
-      (p = s.pos ∨ p = wrap32 (s.pos + 1) ∨ p = wrap32 (s.pos - 1)) := by
-  unfold coverIsr
-  by_cases hdeb : s.clk - s.isrLast > coverDebounceMs
-  · simp only [hdeb, if_true]
-    unfold stepCover
-    cases hr : s.run with
-    | opn =>
-      simp only []
-      by_cases hc : s.lim = Lim.none ∧ atOpenEnd (wrap32 (s.pos + 1)) s.opn = true
-      · simp only [hc, and_self, if_true]
-        exact ⟨_, _, rfl, Or.inr rfl, Or.inr (Or.inl rfl)⟩
-      · simp only [hc, if_false]
-        exact ⟨_, _, rfl, Or.inl rfl, Or.inr (Or.inl rfl)⟩
-    | cls =>
-      simp only []
-      by_cases hc : s.lim = Lim.none ∧ atCloseEnd (wrap32 (s.pos - 1)) s.close = true
-      · simp only [hc, and_self, if_true]
-        exact ⟨_, _, rfl, Or.inr rfl, Or.inr (Or.inr rfl)⟩
-      · simp only [hc, if_false]
-        exact ⟨_, _, rfl, Or.inl rfl, Or.inr (Or.inr rfl)⟩
-    | stop =>
-      simp only []
-      refine ⟨s.pos, s.dir, ?_, Or.inl rfl, Or.inl rfl⟩
-      simp only [hr]
-  · simp only [hdeb, if_false]
-    exact ⟨s.pos, s.dir, rfl, Or.inl rfl, Or.inl rfl⟩
 
 theorem coverIsr_dir_stop (s : St) (h : s.dir = .stop) : (coverIsr s).dir = .stop := by
   obtain ⟨p, d, e, hd, _⟩ := coverIsr_cases s
